@@ -160,10 +160,15 @@ def tls_packets(ci, conn, ep, tcp):
     # or inside one handshake flight): implemented by swapping with following same-direction segments, never crossing a
     # forced cut of the other direction (causality)
     hs_end = _hs_end_offsets(conn)
+    first_rec_end = len(conn.events[0][1]) if conn.events and not conn.events[0][0] else 0
+    excluded = 0
     for i, d in t["moves"]:
         if not segs:
             break
         i %= len(segs)
+        if not t.get("allow_first_record_moves") and not segs[i]["srv"] and segs[i]["off"] < first_rec_end:
+            excluded += 1      # open finding F05r: reordering inside the client's first record (see known_findings.json)
+            continue
         k = [k for k, it in enumerate(seq_items) if it == ("seg", i)][0]
         srv = segs[i]["srv"]
         for _ in range(d):
@@ -185,7 +190,8 @@ def tls_packets(ci, conn, ep, tcp):
         pk.append(LPkt(ci, "tcp", False, b"", ep, ic, 0, 0x02, "SYN"))
         pk.append(LPkt(ci, "tcp", True, b"", ep, is_, ic + 1, 0x12, "SYNACK"))
         pk.append(LPkt(ci, "tcp", False, b"", ep, ic + 1, is_ + 1, 0x10, "ACK"))
-    seen = {False: 0, True: 0}
+    seen = {False: 0, True: 0}          # contiguously received prefix per direction: what a receiver acknowledges
+    ivs = {False: [], True: []}
     for kind, i in seq_items:
         s = segs[i]
         srv = s["srv"]
@@ -193,10 +199,18 @@ def tls_packets(ci, conn, ep, tcp):
         p = LPkt(ci, "tcp", srv, s["data"], ep, (base + 1 + s["off"]) & 0xFFFFFFFF, (peer + 1 + seen[not srv]) & 0xFFFFFFFF, 0x18,
                  "dup" if kind == "dup" else "seg")
         p.rec_span = (s["off"], s["off"] + len(s["data"]))
-        seen[srv] = max(seen[srv], s["off"] + len(s["data"]))
+        ivs[srv].append(p.rec_span)
+        moved = True
+        while moved:
+            moved = False
+            for a, e in ivs[srv]:
+                if a <= seen[srv] < e:
+                    seen[srv] = e
+                    moved = True
         pk.append(p)
         if t["acks"]:
             pk.append(LPkt(ci, "tcp", not srv, b"", ep, (peer + 1 + seen[not srv]) & 0xFFFFFFFF, (base + 1 + seen[srv]) & 0xFFFFFFFF, 0x10, "ack"))
+    tls_packets.excluded = getattr(tls_packets, 'excluded', 0) + excluded
     return pk, segs
 
 
